@@ -35,19 +35,59 @@ type CallerSite struct {
 	Site   ssa.CallInstruction
 }
 
-// CallersOf lists every call edge into fn (callers inside the module only when modOnly).
+// InModule reports whether fn belongs to the analysed module.
+func InModule(fn *ssa.Function) bool {
+	pk := FuncPkgPath(fn)
+	return pk == Module || len(pk) > len(Module) && pk[:len(Module)+1] == Module+"/"
+}
+
+// CallersOf lists every way fn can be invoked from module code: call-graph edges whose
+// caller is a module function, plus every module instruction that takes fn (or a
+// bound-method / thunk wrapper of it) as a value – e.g. `go f()`, `wg.Go(f)`,
+// callbacks stored in structs.  Call edges from non-module trampolines
+// (sync.WaitGroup.Go, sort.Slice, …) are replaced by those reference sites, which
+// keeps the result over-approximate without merging unrelated callbacks.
 func (p *Program) CallersOf(fn *ssa.Function) []CallerSite {
 	g := p.CG().G
-	nd := g.Nodes[fn]
 	var out []CallerSite
-	if nd == nil {
-		return nil
-	}
-	for _, e := range nd.In {
-		if e.Caller == nil || e.Caller.Func == nil {
-			continue
+	seen := map[ssa.Instruction]bool{}
+	if nd := g.Nodes[fn]; nd != nil {
+		for _, e := range nd.In {
+			if e.Caller == nil || e.Caller.Func == nil || !InModule(e.Caller.Func) {
+				continue
+			}
+			if isWrapper(e.Caller.Func) {
+				// wrapper: attribute to the wrapper's own callers / references
+				for _, cs := range p.CallersOf(e.Caller.Func) {
+					if cs.Site == nil || !seen[cs.Site.(ssa.Instruction)] {
+						out = append(out, cs)
+						if cs.Site != nil {
+							seen[cs.Site.(ssa.Instruction)] = true
+						}
+					}
+				}
+				continue
+			}
+			if e.Site != nil {
+				if seen[e.Site.(ssa.Instruction)] {
+					continue
+				}
+				seen[e.Site.(ssa.Instruction)] = true
+			}
+			out = append(out, CallerSite{e.Caller.Func, e.Site})
 		}
-		out = append(out, CallerSite{e.Caller.Func, e.Site})
+	}
+	// value references
+	for _, ref := range p.refIndex()[fn] {
+		if ci, ok := ref.In.(ssa.CallInstruction); ok {
+			if seen[ref.In] {
+				continue
+			}
+			seen[ref.In] = true
+			out = append(out, CallerSite{ref.Fn, ci})
+		} else {
+			out = append(out, CallerSite{ref.Fn, nil})
+		}
 	}
 	sort.Slice(out, func(i, j int) bool {
 		a, b := out[i], out[j]
@@ -64,6 +104,70 @@ func (p *Program) CallersOf(fn *ssa.Function) []CallerSite {
 		return pa < pb
 	})
 	return out
+}
+
+type fnRef struct {
+	Fn *ssa.Function
+	In ssa.Instruction
+}
+
+// refIndex maps a function to the module instructions that use it as a value (not as
+// the callee of a static call).
+func (p *Program) refIndex() map[*ssa.Function][]fnRef {
+	if p.refs != nil {
+		return p.refs
+	}
+	p.refs = map[*ssa.Function][]fnRef{}
+	var buf [10]*ssa.Value
+	for _, f := range p.ModFuncs {
+		if isWrapper(f) {
+			continue
+		}
+		for _, b := range f.Blocks {
+			for _, in := range b.Instrs {
+				ops := in.Operands(buf[:0])
+				var calleeOp *ssa.Value
+				if ci, ok := in.(ssa.CallInstruction); ok && !ci.Common().IsInvoke() {
+					calleeOp = &ci.Common().Value
+				}
+				for _, op := range ops {
+					if op == nil || *op == nil {
+						continue
+					}
+					if calleeOp != nil && op == calleeOp {
+						continue
+					}
+					var target *ssa.Function
+					switch v := (*op).(type) {
+					case *ssa.Function:
+						target = v
+					case *ssa.MakeClosure:
+						continue // handled when visiting the MakeClosure instruction itself
+					}
+					if mc, ok := in.(*ssa.MakeClosure); ok && op == &mc.Fn {
+						if tf, ok := mc.Fn.(*ssa.Function); ok {
+							target = tf
+						}
+					}
+					if target == nil {
+						continue
+					}
+					if isWrapper(target) {
+						if o := synthTarget(target); o != nil {
+							if real := p.SSA.FuncValue(o); real != nil {
+								target = real
+							}
+						}
+					}
+					if target.Parent() != nil {
+						continue // anonymous functions belong to their parent
+					}
+					p.refs[target] = append(p.refs[target], fnRef{f, in})
+				}
+			}
+		}
+	}
+	return p.refs
 }
 
 // CallerRoots returns the distinct outermost declared functions that call fn.
@@ -91,13 +195,15 @@ func (p *Program) CallerRoots(fn *ssa.Function) []*ssa.Function {
 	return out
 }
 
-// Reach computes the set of functions reachable from roots along call edges
-// (closures are reached through MakeClosure edges that VTA models as calls when
-// invoked; to stay over-approximate we also add every anonymous function of a
-// reached function).  stop functions are not expanded.
+// Reach computes the module functions reachable from roots.  Edges: static calls to
+// module functions; dynamic / interface calls resolved by VTA to module functions;
+// for calls whose callee is outside the module, the function values passed as
+// arguments (callbacks); every anonymous function of a reached function; every module
+// function referenced as a value in a reached function.  Non-module callees are not
+// entered, so unrelated callbacks sharing a stdlib trampoline are not merged.
+// stop functions are not expanded.  The map value is the path from a root.
 func (p *Program) Reach(roots []*ssa.Function, stop map[*ssa.Function]bool) map[*ssa.Function][]*ssa.Function {
 	g := p.CG().G
-	parent := map[*ssa.Function][]*ssa.Function{} // fn -> path from root (as predecessor chain)
 	pred := map[*ssa.Function]*ssa.Function{}
 	var work []*ssa.Function
 	for _, r := range roots {
@@ -109,17 +215,50 @@ func (p *Program) Reach(roots []*ssa.Function, stop map[*ssa.Function]bool) map[
 			work = append(work, r)
 		}
 	}
+	var buf [10]*ssa.Value
 	for len(work) > 0 {
 		f := work[0]
 		work = work[1:]
-		if stop[f] {
+		if stop[f] || stop[Root(f)] {
 			continue
 		}
 		var next []*ssa.Function
+		add := func(t *ssa.Function) {
+			if t == nil {
+				return
+			}
+			if isWrapper(t) {
+				if o := synthTarget(t); o != nil {
+					if real := p.SSA.FuncValue(o); real != nil {
+						t = real
+					}
+				}
+			}
+			if InModule(t) && t.Blocks != nil {
+				next = append(next, t)
+			}
+		}
 		if nd := g.Nodes[f]; nd != nil {
 			for _, e := range nd.Out {
 				if e.Callee != nil && e.Callee.Func != nil {
-					next = append(next, e.Callee.Func)
+					add(e.Callee.Func)
+				}
+			}
+		}
+		for _, b := range f.Blocks {
+			for _, in := range b.Instrs {
+				for _, op := range in.Operands(buf[:0]) {
+					if op == nil || *op == nil {
+						continue
+					}
+					switch v := (*op).(type) {
+					case *ssa.Function:
+						add(v)
+					case *ssa.MakeClosure:
+						if tf, ok := v.Fn.(*ssa.Function); ok {
+							add(tf)
+						}
+					}
 				}
 			}
 		}
@@ -131,6 +270,7 @@ func (p *Program) Reach(roots []*ssa.Function, stop map[*ssa.Function]bool) map[
 			}
 		}
 	}
+	parent := map[*ssa.Function][]*ssa.Function{}
 	for f := range pred {
 		var path []*ssa.Function
 		for x := f; x != nil; x = pred[x] {
